@@ -113,7 +113,8 @@ def cases(rng, tier, shard, nshards):
             opts = {"enable_tracking": True}
             # (cut_counts is outside the claim: it only rescales the count tags -- and raises a
             #  builtin TypeError when the merged length is unknown, DESIGN 9.5)
-        yield {"version": version, "lines": lines, "feats": feats, "opts": opts}
+        yield {"version": version, "lines": lines, "feats": feats, "opts": opts,
+               "vlevel": rng.choice([1, 1, 0, 2, 3])}
 
 
 def gfapy_paths(r):
@@ -124,11 +125,12 @@ def run(case, ctx):
     version, lines = case["version"], case["lines"]
     recs = [S.parse_line(l, version) for l in lines]
     # GFA2 positions equal to 0-length intervals are empty prefixes: keep the model honest
-    r = call(ctx, "Gfa(list)", gfapy.Gfa, lines, version=version)
+    r = call(ctx, "Gfa(list)", gfapy.Gfa, lines, version=version, vlevel=case.get("vlevel", 1))
     if not r.ok:
         ctx.violation("valid-document-refused/%s" % r.cls(), "%r: %s" % (lines, str(r.exc)[:200]), prop="C01")
         return
     g = r.value
+    ctx.count("merges_at_level_%d" % case.get("vlevel", 1))
     want = CH.chains(recs, version)
     lp = call(ctx, "linear_paths", g.linear_paths)
     ctx.count("linear_paths_calls")
